@@ -230,6 +230,8 @@ pub trait RvbUpdater:
             cluster_toggle_ps.sort_unstable();
             remove_doubles(&mut cluster_toggle_ps);
 
+            #[cfg(qmc_verif)]
+            let verif_start_state = cluster_starting_state.clone();
             let p_to_flip = calculate_flip_prob(
                 self,
                 &mut substate,
@@ -248,7 +250,7 @@ pub trait RvbUpdater:
             #[cfg(qmc_verif)]
             verif_hooks::push_trace(verif_hooks::RvbTrace {
                 subvars: subvars.clone(),
-                cluster_starting_state: cluster_starting_state.clone(),
+                cluster_starting_state: verif_start_state,
                 cluster_toggle_ps: cluster_toggle_ps.clone(),
                 p_to_flip,
                 accepted: should_mutate,
